@@ -51,6 +51,16 @@ def validYMD (y m d : Int) : Bool :=
 def mkDate? (y m d : Int) : Except Err Date :=
   if validYMD y m d then .ok (ymdToOrd y m d) else .error .dateRange
 
+/-- days before month `m` in a leap / common year -/
+def dbmL (m : Int) (leap : Bool) : Int := daysBeforeMonth (if leap then 4 else 1) m
+
+/-- `_ord2ymd`, last part: month and day of a 0-based day-of-year
+    (estimate `(n + 50) >> 5`, then correct by one month if it overshoots) -/
+def monthDay (r : Int) (leap : Bool) : Int × Int :=
+  let month := (r + 50) / 32
+  let preceding := dbmL month leap
+  if preceding > r then (month - 1, r - dbmL (month - 1) leap + 1) else (month, r - preceding + 1)
+
 /-- `datetime._ord2ymd` -/
 def ordToYMD (n0 : Int) : Int × Int × Int :=
   let n := n0 - 1
@@ -67,13 +77,8 @@ def ordToYMD (n0 : Int) : Int × Int × Int :=
   if n1 = 4 ∨ n100 = 4 then (year - 1, 12, 31)
   else
     let leap : Bool := n1 == 3 && (n4 != 24 || n100 == 3)
-    let month := (n + 50) / 32
-    let preceding := daysBeforeMonth (if leap then 4 else 1) month
-    if preceding > n then
-      let month := month - 1
-      let preceding := daysBeforeMonth (if leap then 4 else 1) month
-      (year, month, n - preceding + 1)
-    else (year, month, n - preceding + 1)
+    let md := monthDay n leap
+    (year, md.1, md.2)
 
 def dateYear (d : Date) : Int := (ordToYMD d).1
 def dateMonth (d : Date) : Int := (ordToYMD d).2.1
